@@ -464,9 +464,15 @@ def main(check_fn, pid, level):
     except Infra as e:
         print("INFRASTRUCTURE-ERROR property=%s: %s" % (pid, e), flush=True)
         rc = 2
+        if ctx.violations:
+            # violations established against the real code before a later stage broke down stand on their own
+            ctx.assumptions.append("a later stage of this run ended with an infrastructure error: %s" % str(e)[:300])
+            rc = ctx.finish()
     except subprocess.TimeoutExpired as e:
         print("INFRASTRUCTURE-ERROR property=%s: timeout %s" % (pid, e), flush=True)
         rc = 2
+        if ctx.violations:
+            rc = ctx.finish()
     finally:
         ctx.cleanup()
     sys.exit(rc)
